@@ -1267,8 +1267,12 @@ def dec2hp_v(dec):
 def hp2dec_v(hp):
     # split the 13 decimal rendering (12 from 512 degrees), as in hp2dec
     unit = np.where(abs(hp) < 512, 1.0, 10.0)
-    total = np.rint(abs(hp) * 1e13 / unit) * unit
-    degree, mmss = divmod(total, 1e13)
+    # the fraction is split off first (exactly), so that its 13 decimals are
+    # recovered without the rounding a product of the whole value would add
+    degree = np.floor(abs(hp))
+    mmss = np.rint((abs(hp) - degree) * 1e13 / unit) * unit
+    degree = degree + (mmss >= 1e13)
+    mmss = np.where(mmss >= 1e13, 0.0, mmss)
     minute, second = divmod(mmss, 1e11)
     if np.any(minute >= 60) or np.any(second >= 60e9):
         raise ValueError('Invalid HP Notation: minutes or seconds field of '
